@@ -2,6 +2,7 @@
 from lib import cfg
 from rules import common, C06
 
+CRATES = ("agdb",)
 EXPLANATION = (
     "Static analysis: (R05a) drop optimizes the storage, shrink_to_fit shrinks all four structures and then optimizes; "
     "(R05b) the two loaders (DbImpl::copy and the load branch of try_new_with_storage) build graph/aliases/indexes/values "
